@@ -181,7 +181,8 @@ fn alloc_failure_traces(seed: u64, tier: &str) -> Vec<Trace> {
     let mut r = Rng::new(seed ^ 0xA110C);
     let mut out = Vec::new();
     // length indices into LENS: 0..=8 dense, then sparse
-    let lens: Vec<u32> = if tier == "thorough" { vec![0, 1, 2, 3, 5, 8, 13, 16, 19, 21] } else { vec![0, 1, 3, 8, 16] };
+    // (24 = 1025, 26 = 4096: the lengths above 1024)
+    let lens: Vec<u32> = if tier == "thorough" { vec![0, 1, 2, 3, 5, 8, 13, 16, 19, 21, 24, 26] } else { vec![0, 1, 3, 8, 16, 24] };
     let elems = [ElemKind::Tr, ElemKind::Zt, ElemKind::Pl, ElemKind::Al, ElemKind::Zp];
     let mut push = |elem: ElemKind, ops: Vec<Op>| {
         out.push(Trace { prop: Prop::C16, elem, seed: 0, ops });
@@ -213,6 +214,14 @@ fn alloc_failure_traces(seed: u64, tier: &str) -> Vec<Trace> {
     }
     for which in 0..8u32 {
         push(ElemKind::Tr, vec![Op::new(BoxArrMacro, &[which])]);
+    }
+    // the alloc-feature scenarios on larger-than-a-page elements (lengths 1, 8, 17)
+    for which in 5..8u32 {
+        for wi in [1u32, 5, 6] {
+            for e in [ElemKind::Tr, ElemKind::Pl] {
+                push(e, vec![Op::new(WideOp, &[which, wi, 0, 0, 0])]);
+            }
+        }
     }
     out
 }
